@@ -192,3 +192,18 @@ prop(
     design_ref="5/C18",
     bounded="bounded.c18_corpus",
 )
+
+prop(
+    "C17",
+    ["contracts.c17_monitor"],
+    "other",
+    "contract-based deductive verification of escaping (per character, on the real escape functions), line assembly, record splitting and timestamp arithmetic; the whole-line round trip against an independent reference parser is a BOUNDED stand-in",
+    "proved: per-character escaping (by the homomorphism property of str.replace with one-character patterns the whole-string claim follows by induction), the assembly of a line from escaped parts with nothing else rewritten, tag/field splitting with symbolic values over a bounded key universe, timestamp rounding, JSON merge order; bounded: decoding the assembled line with a reference line-protocol parser for all small strings",
+    "trusted: pyvc's Python semantics and z3's string theory; str.replace with a 1-character pattern is a character homomorphism; str() of numbers/bools contains no delimiter; json / logging.Formatter library behaviour",
+    trusted=["assumed: s.replace(p, r) with a one-character p maps every character independently (homomorphism), so per-character facts lift to strings by induction",
+             "assumed: str() of an int/float/bool contains no line-protocol delimiter and parses back to the value; LogRecord.getMessage() is msg when it contains no % specifier",
+             "BOUNDED (not proved): the assembled line decoded by an independent reference parser equals the record, exhaustively over small strings, see coverage.bounded"],
+    explanation="escaping and record logic proved by VCs; whole-line round trip bounded",
+    design_ref="5/C17",
+    bounded="bounded.c17_roundtrip",
+)
